@@ -1,1 +1,3 @@
+#[cfg(mos_verif_threads)]
+use mos_simrt::std_shim as std;
 pub mod petscii;
